@@ -117,9 +117,13 @@ Definition ls_step (possible : amap (list str)) (tmp : capmap) (kv : str * capva
   end.
 
 Definition ack_step (tmp : capmap) (en : capmap) (tok : str) : capmap :=
-  match aget tok tmp with
-  | Some v => aset tok v en
-  | None => aset tok None en
+  let keep := match aget tok tmp with
+              | Some v => aset tok v en
+              | None => aset tok None en
+              end in
+  match tok with
+  | b :: name => if N.eqb b 45 then adel name en else keep   (* strings.HasPrefix(cap, "-"): delete(enabledCap, cap[1:]) *)
+  | [] => keep
   end.
 
 (* the policy evaluation; returns the updated policy and isError *)
